@@ -235,7 +235,12 @@ fn process_dir(
         for entry in ready {
             let mut matcher_io = matchers::MatcherIO::new(deps);
 
-            let new_dir = entry.path().parent().map(|x| x.to_path_buf());
+            // (an entry without a parent, "/", is run from itself: it counts as its own directory)
+            let new_dir = entry
+                .path()
+                .parent()
+                .or(Some(entry.path()))
+                .map(|x| x.to_path_buf());
             if new_dir != current_dir {
                 if let Some(dir) = current_dir.take() {
                     matcher.finished_dir(dir.as_path(), &mut matcher_io);
